@@ -138,7 +138,7 @@ SUBS = [
         classes=_bool.structure_classes, n={"quick": 800, "thorough": 6000},
         essential=["rel:mutex", "rel:cardinal", "rel:star", "multi-relations-parent"]),
     Sub("random-ctcs", check, gen=lambda tier: _bool.random_models(True, 10), nontrivial=nontrivial,
-        classes=_bool.structure_classes, n={"quick": 200, "thorough": 2500}, essential=["with-ctcs"]),
+        classes=_bool.structure_classes, n={"quick": 600, "thorough": 4000}, essential=["with-ctcs"]),
 ]
 
 MANIFEST = {
